@@ -268,6 +268,13 @@ where
             .configure(|cfg, ctx: &Val| cfg.seq(tks::<I::Token>(&ctx.ctx_toks())))
             .map(|s: Vec<I::Token>| Val::S(s.iter().map(|t| t.ch()).collect()))
             .boxed(),
+        G::CfgJustR => {
+            // the same configurable parser reached through the by-reference ConfigParser impl
+            let j: &'a chumsky::primitive::Just<Vec<I::Token>, I, X<E>> = Box::leak(Box::new(just::<_, I, X<E>>(Vec::<I::Token>::new())));
+            j.configure(|cfg, ctx: &Val| cfg.seq(tks::<I::Token>(&ctx.ctx_toks())))
+                .map(|s: Vec<I::Token>| Val::S(s.iter().map(|t| t.ch()).collect()))
+                .boxed()
+        }
         G::Any => any::<I, X<E>>().map(|t: I::Token| Val::T(t.ch())).boxed(),
         G::OneOf(ts) => one_of::<_, I, X<E>>(tks::<I::Token>(ts)).map(|t: I::Token| Val::T(t.ch())).boxed(),
         G::NoneOf(ts) => none_of::<_, I, X<E>>(tks::<I::Token>(ts)).map(|t: I::Token| Val::T(t.ch())).boxed(),
